@@ -133,6 +133,7 @@ func runC07(c *Checker) {
 	// the window base is what peer-chosen ACK/NACK numbers move: an illegal move (outside the four
 	// templates, or the exact-ACK move on an empty queue) makes size() cover slots that hold no
 	// packet, and resend then dereferences nil - the base-move rules (WIN-4, as C01) belong here too
+	ruleNILLATE(c)
 	ruleWIN4(c)
 	// ... and WIN-4's guard is containsSequence: if it admits a number outside [base, top) the base
 	// leaves the window just the same (ORD-1, as C01)
@@ -929,8 +930,11 @@ func ruleERRUSE(c *Checker) {
 			if !ok || tup.Len() != 2 || !isErrorType(tup.At(1).Type()) || call.Referrers() == nil {
 				return
 			}
+			isSlice := false
 			switch tup.At(0).Type().Underlying().(type) {
 			case *types.Pointer, *types.Interface, *types.Map:
+			case *types.Slice:
+				isSlice = true
 			default:
 				return
 			}
@@ -952,6 +956,20 @@ func ruleERRUSE(c *Checker) {
 			for _, r := range *errv.Referrers() {
 				if bo, ok := r.(*ssa.BinOp); ok && (bo.Op == token.EQL || bo.Op == token.NEQ) {
 					tested = true
+				}
+			}
+			// ... or handed to the caller untested (`return f(x), err`): then no use in this function is
+			// behind a test
+			if !tested {
+				for _, r := range *errv.Referrers() {
+					if _, isRet := r.(*ssa.Return); isRet {
+						tested = true
+					}
+					if st, isSt := r.(*ssa.Store); isSt {
+						if _, isLocal := st.Addr.(*ssa.Alloc); isLocal {
+							tested = true // named/spilled result
+						}
+					}
 				}
 			}
 			if !tested {
@@ -976,6 +994,43 @@ func ruleERRUSE(c *Checker) {
 					}
 				case *ssa.Phi:
 					continue
+				}
+				if isSlice {
+					// a nil slice is a valid empty slice: only indexing, slicing beyond 0 and handing it
+					// to code that does so (anything but len/cap/append/copy) can go wrong
+					unsafeUse := false
+					switch u := r.(type) {
+					case *ssa.IndexAddr:
+						unsafeUse = u.X == ssa.Value(val)
+					case *ssa.Slice:
+						if u.X == ssa.Value(val) {
+							if u.High != nil {
+								if k, isK := intConst(u.High); !isK || k > 0 {
+									unsafeUse = true
+								}
+							}
+							if u.Low != nil {
+								if k, isK := intConst(u.Low); !isK || k > 0 {
+									unsafeUse = true
+								}
+							}
+						}
+					case *ssa.Call:
+						if bi, isB := u.Call.Value.(*ssa.Builtin); isB {
+							switch bi.Name() {
+							case "len", "cap", "append", "copy":
+							default:
+								unsafeUse = true
+							}
+						} else if sc := u.Common().StaticCallee(); sc != nil && sc.Pkg != nil && sc.Pkg.Pkg.Path() == "encoding/binary" {
+							unsafeUse = true // fixed-width decoders index without a length check
+						}
+					}
+					if !unsafeUse {
+						continue
+					}
+				}
+				switch u := r.(type) {
 				case *ssa.Store:
 					// `x.f, err = call()`: storing is not yet a use; every load of that field that the store
 					// reaches before the error test has passed is
@@ -1034,4 +1089,142 @@ func reachableBeforeNilTest(from, to ssa.Instruction, errv ssa.Value) bool {
 		return false
 	}
 	return walk(from.Block(), instrIndex(from)+1)
+}
+
+// ruleNILLATE: fields of the connection that are only filled in by start() - the three tickers -
+// are nil while the handshake runs, and Close() runs on every failed handshake (any malformed
+// packet from the relay makes it fail). Outside start and the two loops that start launches, a
+// method call on such a field is dominated by a nil check of that field.
+func ruleNILLATE(c *Checker) {
+	w := c.w
+	conn := w.Named("gbn.GoBackNConn")
+	start := w.Func("(*gbn.GoBackNConn).start")
+	sl := w.Func("(*gbn.GoBackNConn).sendPacketsForever")
+	rl := w.Func("(*gbn.GoBackNConn).receivePacketsForever")
+	if conn == nil || start == nil || sl == nil || rl == nil {
+		c.anchorFail("gbn.GoBackNConn / start / loops")
+		return
+	}
+	st, ok := conn.Underlying().(*types.Struct)
+	if !ok {
+		return
+	}
+	allocates := func(fn *ssa.Function) bool {
+		found := false
+		allInstrs(fn, func(in ssa.Instruction) {
+			if al, ok := in.(*ssa.Alloc); ok {
+				if pt, ok := al.Type().(*types.Pointer); ok {
+					if nn, ok := pt.Elem().(*types.Named); ok && nn == conn {
+						found = true
+					}
+				}
+			}
+		})
+		return found
+	}
+	afterStart := map[*ssa.Function]bool{}
+	var mark func(fn *ssa.Function, d int)
+	mark = func(fn *ssa.Function, d int) {
+		if afterStart[fn] || d > 8 {
+			return
+		}
+		afterStart[fn] = true
+		for _, an := range fn.AnonFuncs {
+			mark(an, d+1)
+		}
+	}
+	mark(start, 0)
+	mark(sl, 0)
+	mark(rl, 0)
+	top := func(fn *ssa.Function) *ssa.Function {
+		for fn.Parent() != nil {
+			fn = fn.Parent()
+		}
+		return fn
+	}
+	// helpers called only from after-start functions count as after-start
+	onlyAfterStart := func(fn *ssa.Function) bool {
+		fn = top(fn)
+		if afterStart[fn] {
+			return true
+		}
+		sites, closed := w.CallersOf(fn)
+		if !closed || len(sites) == 0 {
+			return false
+		}
+		for _, sx := range sites {
+			if !afterStart[top(sx.Caller)] {
+				return false
+			}
+		}
+		return true
+	}
+	nLate, nUse := 0, 0
+	lateSet := map[*types.Var]bool{}
+	for i := 0; i < st.NumFields(); i++ {
+		f := st.Field(i)
+		if _, isPtr := f.Type().Underlying().(*types.Pointer); !isPtr {
+			continue
+		}
+		late := false
+		ctorSet := false
+		for _, s2 := range w.Stores(f) {
+			if isNilConst(s2.Val) {
+				continue
+			}
+			if allocates(top(s2.Parent())) {
+				ctorSet = true
+			} else {
+				late = true
+			}
+		}
+		if late && !ctorSet {
+			lateSet[f] = true
+		}
+	}
+	for i := 0; i < st.NumFields(); i++ {
+		f := st.Field(i)
+		if !lateSet[f] {
+			continue
+		}
+		nLate++
+		for _, fn := range w.Funcs {
+			if w.pkgShort(fn) != targetGBN || strings.HasSuffix(w.Fset.Position(fn.Pos()).Filename, "_test.go") || onlyAfterStart(fn) {
+				continue
+			}
+			allInstrs(fn, func(in ssa.Instruction) {
+				ci, ok := in.(ssa.CallInstruction)
+				if !ok {
+					return
+				}
+				sc := ci.Common().StaticCallee()
+				if sc == nil || sc.Signature.Recv() == nil || len(ci.Common().Args) == 0 || !isLoadOfField(ci.Common().Args[0], f) {
+					return
+				}
+				nUse++
+				// a check of a sibling that start() creates in the same straight-line block is as good
+				// (both exist or neither: nothing can run between the two stores)
+				sameBlock := func(g *types.Var) bool {
+					for _, a := range w.Stores(f) {
+						for _, b := range w.Stores(g) {
+							if a.Block() == b.Block() && !isNilConst(a.Val) && !isNilConst(b.Val) {
+								return true
+							}
+						}
+					}
+					return false
+				}
+				guarded := hasFact(in.Block(), func(ft Fact) bool {
+					return factRel(ft, func(v ssa.Value) bool {
+						g := fieldOfValue(v)
+						return g != nil && (g == f || (lateSet[g] && sameBlock(g)))
+					}, isNilConst) == "!="
+				})
+				c.decide(guarded, "NILLATE", fmt.Sprintf("%s|%s.%s under a nil check", fnName(fn), f.Name(), sc.Name()), instrPos(in), f.Name()+" != nil dominates the call",
+					f.Name()+" is only created by start(); "+fnName(fn)+" also runs when the handshake failed (any malformed handshake packet from the relay) and calls "+sc.Name()+" on it without a nil check: nil pointer dereference")
+			})
+		}
+	}
+	c.decide(nLate >= 3 && nUse >= 3, "NILLATE", "late-initialised fields", token.NoPos, fmt.Sprintf("%d fields filled in by start only, %d uses outside the started goroutines", nLate, nUse),
+		fmt.Sprintf("expected the three tickers as late-initialised fields with their uses in Close (found %d fields, %d uses)", nLate, nUse))
 }
